@@ -104,6 +104,21 @@ func constBig(info *types.Info, e ast.Expr) (*big.Int, bool) {
 func (p *Program) operandInterval(g *Graph, fi *FuncInfo, f Facts, e ast.Expr) (ival, string) {
 	info := g.Info
 	e = ast.Unparen(e)
+	// x + c, x - c, c + x with a constant c: shift the interval of x
+	if be, ok := e.(*ast.BinaryExpr); ok && (be.Op == token.ADD || be.Op == token.SUB) {
+		if c, isC := constBig(info, be.Y); isC {
+			if xi, why := p.operandInterval(g, fi, f, be.X); xi.lo != nil {
+				if be.Op == token.SUB {
+					c = new(big.Int).Neg(c)
+				}
+				return ival{new(big.Int).Add(xi.lo, c), new(big.Int).Add(xi.hi, c)}, why
+			}
+		} else if c, isC := constBig(info, be.X); isC && be.Op == token.ADD {
+			if yi, why := p.operandInterval(g, fi, f, be.Y); yi.lo != nil {
+				return ival{new(big.Int).Add(yi.lo, c), new(big.Int).Add(yi.hi, c)}, why
+			}
+		}
+	}
 	t := info.TypeOf(e)
 	bits, uns, ok := p.intWidth(t)
 	if !ok {
@@ -977,35 +992,11 @@ func c02r4(p *Program, r *Report) {
 				}
 				return false
 			})
-			viaAppendBytes, nilCase := false, false
-			ast.Inspect(loop, func(y ast.Node) bool {
-				switch s := y.(type) {
-				case *ast.CallExpr:
-					if isCallTo(info, s, "appendBytes") && len(s.Args) == 2 && exprStr(s.Args[1]) == id.Name {
-						viaAppendBytes = true
-					}
-				case *ast.IfStmt:
-					if s.Pos() > as.End() && strings.Contains(exprStr(s.Cond), id.Name+" == nil") {
-						// body sets a length variable to -1 or appends -1
-						ast.Inspect(s.Body, func(z ast.Node) bool {
-							switch w := z.(type) {
-							case *ast.AssignStmt:
-								if k, isC := constInt(info, w.Rhs[0]); isC && k == -1 {
-									nilCase = true
-								}
-							case *ast.CallExpr:
-								if isCallTo(info, w, "appendInt") && len(w.Args) == 2 {
-									if k, isC := constInt(info, w.Args[1]); isC && k == -1 {
-										nilCase = true
-									}
-								}
-							}
-							return true
-						})
-					}
-				}
+			viaAppendBytes, nilCase, wrongNull := nilFraming(p, info, loop, id.Name, as.End(), 0)
+			if wrongNull != "" {
+				r.Bad(as, construct, wrongNull)
 				return true
-			})
+			}
 			r.Check(viaAppendBytes || nilCase, as, construct, ifs(viaAppendBytes, "framed by appendBytes (nil -> -1)", "explicit nil -> -1 case"),
 				fmt.Sprintf("the element encoding `%s` is framed with len(%s) and no nil case: a null element (nil encoding, e.g. a typed nil pointer) is written as an empty value (length 0) instead of null (length -1)", id.Name, id.Name))
 			return true
@@ -1348,4 +1339,89 @@ func c02r7(p *Program, r *Report) {
 		}
 		r.Check(ok, fi.Decl, "Marshal encodes a nil pointer as null", "valueRef.IsNil() -> nil, nil", "a nil pointer is not marshalled as null (nil bytes, no error)")
 	}
+}
+
+// nilFraming decides how the element encoding held in variable `name` is framed inside region (after position
+// `after`): through appendBytes (which writes -1 for nil), through an explicit `name == nil` case that writes
+// -1, or through a helper of the repository that does one of these with the corresponding parameter.
+// wrongNull is non-empty when length -1 is chosen under a condition that does not test the encoding for nil
+// (e.g. its length): an empty, non-null value would be written as null.
+func nilFraming(p *Program, info *types.Info, region ast.Node, name string, after token.Pos, depth int) (viaAppendBytes, nilCase bool, wrongNull string) {
+	lenVars := map[string]bool{} // variables holding len(name)
+	ast.Inspect(region, func(y ast.Node) bool {
+		switch s := y.(type) {
+		case *ast.AssignStmt:
+			if len(s.Lhs) == 1 && len(s.Rhs) == 1 && exprStr(s.Rhs[0]) == "len("+name+")" {
+				lenVars[exprStr(s.Lhs[0])] = true
+			}
+		case *ast.CallExpr:
+			if isCallTo(info, s, "appendBytes") && len(s.Args) == 2 && exprStr(s.Args[1]) == name {
+				viaAppendBytes = true
+				return true
+			}
+			// a helper that receives the encoding
+			if depth < 2 && s.Pos() > after {
+				if fn := calleeOf(info, s); fn != nil {
+					if callee := p.FuncOf(fn); callee != nil && callee.Decl.Body != nil && !isCallTo(info, s, "Marshal", "Unmarshal", "writeCollectionSize", "appendInt") {
+						k := 0
+						for _, pf := range callee.Decl.Type.Params.List {
+							for _, pn := range pf.Names {
+								if k < len(s.Args) && exprStr(s.Args[k]) == name && isByteSlice(callee.Pkg.TypesInfo.TypeOf(pf.Type)) {
+									a, n, w := nilFraming(p, callee.Pkg.TypesInfo, callee.Decl.Body, pn.Name, token.NoPos, depth+1)
+									viaAppendBytes = viaAppendBytes || a
+									nilCase = nilCase || n
+									if w != "" {
+										wrongNull = w
+									}
+								}
+								k++
+							}
+						}
+					}
+				}
+			}
+		case *ast.IfStmt:
+			if s.Pos() <= after {
+				return true
+			}
+			setsNull := false
+			ast.Inspect(s.Body, func(z ast.Node) bool {
+				switch w := z.(type) {
+				case *ast.AssignStmt:
+					if len(w.Rhs) == 1 {
+						if k, isC := constInt(info, w.Rhs[0]); isC && k == -1 && (lenVars[exprStr(w.Lhs[0])] || strings.Contains(strings.ToLower(exprStr(w.Lhs[0])), "len")) {
+							setsNull = true
+						}
+					}
+				case *ast.CallExpr:
+					if isCallTo(info, w, "appendInt") && len(w.Args) == 2 {
+						if k, isC := constInt(info, w.Args[1]); isC && k == -1 {
+							setsNull = true
+						}
+					}
+				}
+				return true
+			})
+			if !setsNull {
+				return true
+			}
+			c := exprStr(s.Cond)
+			if strings.Contains(c, name+" == nil") {
+				nilCase = true
+				return true
+			}
+			// -1 chosen by a condition on this encoding that is not the nil test
+			mentions := strings.Contains(c, "len("+name+")")
+			for lv := range lenVars {
+				if strings.Contains(c, lv) {
+					mentions = true
+				}
+			}
+			if mentions {
+				wrongNull = fmt.Sprintf("length -1 (null) is written under `%s`, which does not test the encoding for nil: an empty but non-null value (\"\", empty blob) is written as null", c)
+			}
+		}
+		return true
+	})
+	return
 }
